@@ -27,6 +27,7 @@ def configs(tier):
     ns = (1, 2) if tier == "quick" else (1, 2, 3)
     for n in ns:
         out.append({"fn": "fidelity", "flavour": "pure", "n": n})
+        out.append({"fn": "fidelity", "flavour": "pure-positive", "n": n})
         if n <= 2:
             out.append({"fn": "fidelity", "flavour": "mixed", "n": n})
         for flav in ("pure", "mixed"):
@@ -55,8 +56,13 @@ class Model:
         from drivers import common as DC
         self.flav, self.n = flav, n
         D = 2 ** n
-        self.state = DC.make_state("complex" if flav == "pure" else "mixed", n, 1, 1)
-        if flav == "pure":
+        self.state = DC.make_state({"pure": "complex", "pure-positive": "positive"}.get(flav, "mixed"), n, 1, 1)
+        if flav == "pure-positive":
+            # a positive wavefunction: real non-negative amplitudes
+            self.psi = np.array([alg.uf("amp[%d]" % k, "pos") + 0 * I for k in range(D)], dtype=object)
+            self.rho = np.array([[self.psi[a] * alg.conj(self.psi[b]) for b in range(D)] for a in range(D)], dtype=object)
+            self.flav = flav = "pure"
+        elif flav == "pure":
             self.psi = np.array([alg.par("psi_re[%d]" % k) + I * alg.par("psi_im[%d]" % k) for k in range(D)], dtype=object)
             self.rho = np.array([[self.psi[a] * alg.conj(self.psi[b]) for b in range(D)] for a in range(D)], dtype=object)
         else:
@@ -156,9 +162,10 @@ def _uc():
 
 def _fidelity(ctx, cfg):
     from qucumber.utils import training_statistics as ts
-    n, flav = cfg["n"], cfg["flavour"]
+    n, flav0 = cfg["n"], cfg["flavour"]
     D = 2 ** n
-    m = Model(flav, n)
+    m = Model(flav0, n)
+    flav = "pure" if flav0.startswith("pure") else flav0
     space = m.state.generate_hilbert_space(n)
     ctx.under_contract("training_statistics.fidelity", "utils.deprecated_kwarg", "cplx.inner_prod", "cplx.absolute_value")
     ctx.stub("nn_state.psi", "nn_state.rho", "nn_state.normalization")
@@ -184,7 +191,7 @@ def _fidelity(ctx, cfg):
             f3 = ts.fidelity(m.state, st.SymTensor(t2), space)
         ctx.eq("lemma/fidelity unchanged by a global phase of the target", _val(f3), _val(f), z3_confirm=False)
         # lemma: fidelity against the model's own normalised state is 1 (Z revealed as sum |psi|^2)
-        mr = Model(flav, n, reveal_Z=True)
+        mr = Model(flav0, n, reveal_Z=True)
         sq = alg.sqrt(mr.Z) if len(mr.Z.t) > 1 else alg.sqrt(mr.Z)
         own = np.empty((2, D), dtype=object)
         for k in range(D):
